@@ -1036,3 +1036,12 @@ Qed.
 
 Theorem model_meets_oracle : forall i, wf i = true -> spec_ok i (model i) = true.
 Proof. intros i _. apply model_spec_ok. Qed.
+
+(* ---------- pinned verdicts of the regular expressions ---------- *)
+
+Theorem pinned_strings :
+  forallb scope_ok_b pinned_good_scopes = true
+  /\ forallb (fun s => negb (scope_ok_b s)) pinned_bad_scopes = true
+  /\ forallb is_valid_file_name pinned_good_names = true
+  /\ forallb (fun s => negb (is_valid_file_name s)) pinned_bad_names = true.
+Proof. repeat split; vm_compute; reflexivity. Qed.
